@@ -406,7 +406,9 @@ class _Parser:
         if self.is_op(";"):
             self.take()
             if not self.is_op(")"):
-                raise BDUnsupported("section options")
+                # the document: "section_options is not supported and raises syntax error when used";
+                # the repository's own tests (tests/nxpimage/test_bd_compiler.py) pin them as accepted
+                raise BDOutOfDomain("section options")
         self.expect_op(")")
         if self.is_op("<="):
             raise BDUnsupported("section contents '<= source'")
@@ -1214,7 +1216,7 @@ _UNSUPPORTED = [
     "sources { s = \"a\"; } section (0) { from s { reset; } }", "section (0) { load $sec > 1; }",
     "section (0) { load sizeof(x) > 1; }", "sources { s = \"a\"; } section (0) { jump s?:main; }",
     "section (0) { load 5 > .; }", "section (0) { load 5; }", "sources { s = \"a\" (x=1); } section (0) { }",
-    "sources { s = \"a\"; } section (0) <= s;", "section (0; a=1) { }", "keyblob (0) { () } section (0) { }",
+    "sources { s = \"a\"; } section (0) <= s;", "keyblob (0) { () } section (0) { }",
     "keyblob (0) { (a=1) (b=2) } section (0) { }", "keyblob (0) { } section (0) { }",
     "sources { s = \"a\"; } section (0) { call s; }",
 ]
